@@ -300,8 +300,8 @@ class ModelGen:
                     cor=[])
 
     def to_json(self):
-        return dict(ty=self.ty, kinds=self.kinds, vals=self.vals, params=self.params, blocks=self.blocks, wt=self.wt,
-                    consts=self.consts)
+        return json.loads(json.dumps(dict(ty=self.ty, kinds=self.kinds, vals=self.vals, params=self.params,
+                                          blocks=self.blocks, wt=self.wt, consts=self.consts)))
 
     @classmethod
     def from_json(cls, d):
@@ -595,8 +595,8 @@ def mat_rows(t):
 
 
 # ====================================================================== correctors / kernels (public extension points)
-def lattice_corrector(torch, g, Cs, record):
-    """A user corrector acting item-wise linearly: R_i' = C_i R_i, J_i' = C_i J_i (C_i dyadic R x R).  One instance
+def lattice_corrector(torch, g, Cs, CJs, record):
+    """A user corrector acting item-wise linearly: R_i' = C_i R_i, J_i' = CJ_i J_i (dyadic R x R matrices).  One instance
     serves every block in turn (the optimizers call the corrector once per residual block, in output order)."""
     nb = len(g.blocks)
 
@@ -611,8 +611,9 @@ def lattice_corrector(torch, g, Cs, record):
             record.append((b, R.detach().clone(), J.detach().clone()))
             Rd = g.blocks[b]["R"]
             C = torch.tensor(Cs[b], dtype=R.dtype)                       # items x Rd x Rd
+            CJ = torch.tensor(CJs[b], dtype=R.dtype)
             R2 = torch.einsum("ijk,ik->ij", C, R.reshape(-1, Rd)).reshape(R.shape)
-            J2 = torch.einsum("ijk,ikc->ijc", C, J.reshape(-1, Rd, J.shape[-1])).reshape(J.shape)
+            J2 = torch.einsum("ijk,ikc->ijc", CJ, J.reshape(-1, Rd, J.shape[-1])).reshape(J.shape)
             return R2, J2
     return LatticeCorrector
 
@@ -631,6 +632,33 @@ def rand_cmats(rng, g):
             out.append(C)
         Cs.append(out)
     return Cs
+
+
+def force_residuals(g, dtype, rng, x):
+    """Choose the targets so that every item's residual is an integer vector of squared norm x (1 or 4)."""
+    import torch
+    for b in g.blocks:
+        for it in b["items"]:
+            it["tgtf"] = [0.0] * b["R"]
+    for b in g.blocks:
+        b["_ta"], b["target_arg"] = b["target_arg"], False
+    model, inp, _, _ = build(g, dtype)
+    with torch.no_grad():
+        out = model(**inp) if isinstance(inp, dict) else (model(*inp) if isinstance(inp, tuple) else model(inp))
+    outs = out if isinstance(out, tuple) else (out,)
+    for o, b in zip(outs, g.blocks):
+        b["target_arg"] = b.pop("_ta")
+        vals = o.reshape(-1, b["R"]).tolist()
+        for it, v in zip(b["items"], vals):
+            Rd = b["R"]
+            r = [0.0] * Rd
+            if x == 4 and Rd >= 4 and rng.random() < 0.5:
+                for j in rng.sample(range(Rd), 4):
+                    r[j] = float(rng.choice([-1, 1]))
+            else:
+                r[rng.randrange(Rd)] = float(rng.choice([-1, 1])) * (2.0 if x == 4 else 1.0)
+            it["tgtf"] = [a - c for a, c in zip(v, r)]
+            it["tgt"] = [D(t) for t in it["tgtf"]]
 
 
 def item_sqnorms(g, dtype):
@@ -676,10 +704,18 @@ def poly_kernel(torch, a0, a1):
 
 
 def cor_spec(rng, g, dtype, mode):
-    """A JSON description of the corrector / kernel configuration of a run."""
+    """A JSON description of the corrector / kernel configuration of a run (may adjust the model's targets)."""
     nb = len(g.blocks)
     if mode == "mat":
-        return dict(mode="mat", Cs=rand_cmats(rng, g), form=rng.choice(["single", "list"]) if nb > 1 else "single")
+        Cs = rand_cmats(rng, g)
+        return dict(mode="mat", Cs=Cs, CJs=Cs if rng.random() < 0.5 else rand_cmats(rng, g),
+                    form=rng.choice(["single", "list"]) if nb > 1 else "single")
+    if mode == "tr":
+        # Triggs with rho'' > 0: rho'(x) = -1/2 + 3 x / (2 x0) at residuals of squared norm x0: rho' = 1, u = 2, alpha = -1
+        x0 = rng.choice([1, 4])
+        force_residuals(g, dtype, rng, x0)
+        return dict(mode="tr", ks=[[-0.5, 1.5 / x0]] * nb, form=rng.choice(["single", "list"]) if nb > 1 else "single",
+                    xs=item_sqnorms(g, dtype), x0=x0)
     xs = item_sqnorms(g, dtype)
     form = rng.choice(["kernel", "kernel_list", "kernel_list", "corrector", "triggs_linear"]) if nb > 1 \
         else rng.choice(["kernel", "corrector", "triggs_linear"])
@@ -700,11 +736,20 @@ def cor_make(g, sp):
     nb = len(g.blocks)
     record = []
     form = sp["form"]
+    dm = lambda Ms: [[[D(x) for x in row] for row in C] for C in Ms]
     if sp["mode"] == "mat":
-        cor = [dict(t="mat", C=[[[D(x) for x in row] for row in C] for C in blk]) for blk in sp["Cs"]]
-        cls = lattice_corrector(torch, g, sp["Cs"], record)
+        cor = [dict(t="mat", C=dm(c), CJ=dm(cj)) for c, cj in zip(sp["Cs"], sp["CJs"])]
+        cls = lattice_corrector(torch, g, sp["Cs"], sp["CJs"], record)
         return cor, dict(corrector=cls() if form == "single" else [cls(only=b) for b in range(nb)]), record
     ks = sp["ks"]
+    if sp["mode"] == "tr":
+        if any(x != sp["x0"] for blk in sp["xs"] for x in blk):
+            raise MachineryError("forced residuals do not have the squared norm %s: %s" % (sp["x0"], sp["xs"]))
+        cor = [dict(t="tr", dk=[D(ks[b][0]), D(ks[b][1])], s=[D(1.0)] * len(sp["xs"][b]), u=[D(2.0)] * len(sp["xs"][b]))
+               for b in range(nb)]
+        k = poly_kernel(torch, *ks[0])
+        T = pp.optim.corrector.Triggs
+        return cor, dict(kernel=k, corrector=T(k) if form == "single" else [T(k) for _ in range(nb)]), record
     cor = [dict(t="ft", dk=[D(ks[b][0]), D(ks[b][1])], s=[D(math.sqrt(ks[b][0] + ks[b][1] * x)) for x in sp["xs"][b]])
            for b in range(nb)]
     if form == "kernel":
@@ -1188,7 +1233,7 @@ def run(ctx):
         steps_for(ctx, batch, g, f64, "interior%d" % i, lm_rej=1)
     for i in range(12 if q else 80):                     # correctors (user corrector, FastTriggs / Triggs with exact kernels)
         g = gen_model(rng, T[i % 4], "mixed", maxd=2, allow_frozen=i % 3 == 0, nblocks=2 if i % 2 else None)
-        steps_for(ctx, batch, g, f64, "cor%d" % i, cor_mode="mat" if i % 4 < 2 else "ft", lm_rej=rng.choice([0, 2]))
+        steps_for(ctx, batch, g, f64, "cor%d" % i, cor_mode=["mat", "mat", "ft", "ft", "tr", "tr"][i % 6], lm_rej=rng.choice([0, 2]))
     for i in range(10 if q else 80):                     # first-order retraction with generic increments
         g = gen_model(rng, T[i % 4], "mixed", maxd=2, need=lambda g: "G" in g.cls()["kinds"])
         for opt in ("GN", "LM"):
